@@ -1,4 +1,4 @@
 SPECIFICATION Spec
-CONSTANTS Strings <- ClassStrings  MaxLen = 5  FixDanglingDash = TRUE  FixDblDashFollow = TRUE
+CONSTANTS Strings <- ClassStrings5  MaxLen = 4  FixDanglingDash = TRUE  FixDblDashFollow = TRUE
 INVARIANTS Conforms PosInside Tiling
 CHECK_DEADLOCK FALSE
